@@ -424,7 +424,9 @@ class Trace:
         snap = self.snapshot()
         self.snaps[t + 1] = snap
         truth = {
-            'cluster': snap['running_tasks'] == 0,
+            # "no task is running and no machine is busy": neither an allocation the cluster knows of nor a task body
+            # that is still executing (a body ends with or before its allocation on the unchanged tree)
+            'cluster': snap['running_tasks'] == 0 and not any(s['work'] for s in self.m.values()),
             'buffer': (snap['hot_buffer'] == self.hot_cap) if not self.tier_moves else None,
             'scheduler': len(self.queue) == 0,
             'telescope': all(r['finish'] is not None for r in self.obs.values()) and self.arrays_in_use == 0,
